@@ -74,7 +74,9 @@ fn case(k: usize, n: usize) -> Result<(), String> {
     // TWO non-finite contributions of different kinds (+inf and -inf, inf and NaN, finite entries whose products overflow with both
     // signs): NaN under every association, as the sequential dot says - a worker that stops early or a partial sum that is dropped
     // turns it into an infinity. And a ZERO vector against entries inf / NaN: 0 * inf = NaN in every order, never 0
-    if n >= 2 {
+    // (lengths above 48 carry these two classes at every fifth length: they cost ten threaded calls per case)
+    let dense = n <= 48 || n % 5 == 0;
+    if n >= 2 && dense {
         for (j1, j2) in [(0usize, n - 1), ((2 * n) / 3, n / 3)] {
             if j1 == j2 {
                 continue;
@@ -95,7 +97,7 @@ fn case(k: usize, n: usize) -> Result<(), String> {
             }
         }
     }
-    if n >= 1 {
+    if n >= 1 && dense {
         // (position, value and sign of the zero rotate with n: every combination occurs for every worker count)
         let j = (2 * n) / 3;
         let v = [f64::INFINITY, f64::NEG_INFINITY, f64::NAN][n % 3];
